@@ -141,10 +141,15 @@ pub fn wire_against_caps(packet: &rf::Packet, wire_len: usize, caps: &Caps, v5: 
             Verdict::MustAccept
         }
         rf::Packet::Unsubscribe(u) => {
+            let mut unspecified = None;
             for f in &u.filters {
                 let info = rf::filter_info(f);
                 if !info.valid { return Verdict::MustReject("filter-invalid"); }
+                // the availability flags are defined for SUBSCRIBE; whether an UNSUBSCRIBE that
+                // names a wildcard / shared filter "violates" them is not settled by the text
+                if (info.wildcard && !caps.wildcard_available) || ((info.well_formed_shared || info.malformed_shared) && !caps.shared_available) { unspecified = Some("unsubscribe-filter-vs-availability"); }
             }
+            if let Some(u) = unspecified { return Verdict::Unspecified(u); }
             Verdict::MustAccept
         }
         _ => Verdict::MustAccept,
